@@ -22,6 +22,8 @@ pub struct Ctx {
     pub mode: String,
     pub out: Option<String>,
     pub budget: f64,
+    /// (i, n): only cases with index % n == i (used to shard sanitizer runs into short processes)
+    pub shard: (usize, usize),
 }
 
 fn main() {
@@ -40,6 +42,7 @@ fn main() {
         mode: String::new(),
         out: None,
         budget: 1.0,
+        shard: (0, 1),
     };
     let mut i = 2;
     while i < args.len() {
@@ -53,6 +56,12 @@ fn main() {
             "--mode" => ctx.mode = v,
             "--out" => ctx.out = Some(v),
             "--budget" => ctx.budget = v.parse().unwrap_or(1.0),
+            "--shard" => {
+                let mut it = v.split('/');
+                let i = it.next().and_then(|x| x.parse().ok()).unwrap_or(0);
+                let n = it.next().and_then(|x| x.parse().ok()).unwrap_or(1);
+                ctx.shard = (i, n);
+            }
             _ => {
                 eprintln!("unknown argument {}", a);
                 std::process::exit(3);
